@@ -50,7 +50,9 @@ def main():
         import bisturi.packet, bisturi.field, bisturi.structural_fields, bisturi.fragments, bisturi.deferred  # noqa
     from bv import decl, ir
     from bv.props import c08
-    scratch = tempfile.mkdtemp(prefix="bv_fuzz_")
+    # atexit handlers do not run under atheris: the caller provides (and removes) the scratch directory
+    scratch = os.environ.get("BV_FUZZ_SCRATCH") or tempfile.mkdtemp(prefix="bv_fuzz_")
+    os.makedirs(scratch, exist_ok=True)
     os.chdir(scratch)
     sys.path.insert(0, scratch)
     atexit.register(lambda: shutil.rmtree(scratch, ignore_errors=True))
